@@ -390,6 +390,134 @@ def wildMut (s : GS) : G (List (Nat × Obj)) := do
   | 16 => return setKey s.objs anyn "Resources" (some (mkDict [("Font", mkDict [("F1", .ref (fr + 7) 0)])]))
   | _ => return addKid s.objs node (.ref 2 0)
 
+/-! ### reference-chain shapes at every position where to_page_dom follows (or could follow) references -/
+
+inductive Shape where
+  | direct | chain (n : Nat) | selfLoop | cycle (c : Nat) | lasso (t c : Nat) | dangling (d : Nat)
+deriving Inhabited
+
+def Shape.name : Shape → String
+  | .direct => "direct" | .chain n => s!"chain{n}" | .selfLoop => "self" | .cycle c => s!"cycle{c}"
+  | .lasso t c => s!"lasso{t}+{c}" | .dangling d => s!"dangling{d}"
+
+def allShapes : List Shape :=
+  [.direct] ++ [1, 2, 3, 4].map .chain ++ [.selfLoop] ++ [2, 3].map .cycle ++
+  ([1, 2, 3].flatMap fun t => [1, 2, 3].map fun c => .lasso t c) ++ [0, 1, 2].map .dangling
+
+/-- the value to put at the position and the link objects (identifiers from `base`):
+    chain n: n links then the target; cycle c: c links back to the start; lasso t c: t links into a
+    cycle of c links that does not contain the start; dangling d: d links then an undefined object -/
+def shapeObjs (base : Nat) (target : Obj) : Shape → Obj × List (Nat × Obj)
+  | .direct => (target, [])
+  | .chain n => (.ref base 0, (List.range n).map fun i => (base + i, if i + 1 == n then target else .ref (base + i + 1) 0))
+  | .selfLoop => (.ref base 0, [(base, .ref base 0)])
+  | .cycle c => (.ref base 0, (List.range c).map fun i => (base + i, .ref (base + (i + 1) % c) 0))
+  | .lasso t c =>
+    (.ref base 0, ((List.range t).map fun i => (base + i, Obj.ref (base + i + 1) 0)) ++
+      (List.range c).map fun i => (base + t + i, .ref (base + t + (i + 1) % c) 0))
+  | .dangling d => (.ref base 0, (List.range d).map fun i => (base + i, .ref (base + i + 1) 0))
+
+/-- a stream cannot be a direct value -/
+def noInline : Shape → Shape
+  | .direct => .chain 1
+  | s => s
+
+def posNames : List String :=
+  ["root-kids", "contents", "contents-elem", "root-resources", "font-value", "font-entry", "encoding",
+   "fontdescriptor", "fontfile2", "node-kids", "page-resources", "contents-array"]
+
+/-- a two-level tree (root 2, page 3, inner node 4, page 5) with the shape at position `pos` -/
+def shapeDoc (pos : Nat) (sh : Shape) : List (Nat × Obj) :=
+  let st : Obj := .stream [] ⟨0, 2, [113, 32]⟩
+  let sel (p : Nat) (target dflt : Obj) : Obj × List (Nat × Obj) :=
+    if p == pos then shapeObjs 50 target sh else (dflt, [])
+  let ff := sel 8 st (.ref 9 0)
+  let descr := mkDict [("Type", nm "FontDescriptor"), ("FontName", nm "ABCDEF+Foo"), ("Flags", .int 32), ("FontFile2", ff.1)]
+  let fdv := sel 7 descr (.ref 8 0)
+  let enc := sel 6 (nm "WinAnsiEncoding") (nm "WinAnsiEncoding")
+  let font := mkDict [("Type", nm "Font"), ("Subtype", nm "TrueType"), ("BaseFont", nm "ABCDEF+Foo"),
+                      ("Encoding", enc.1), ("FontDescriptor", fdv.1)]
+  let fe := sel 5 font font
+  let fonts := mkDict [("F1", fe.1)]
+  let fv := sel 4 fonts fonts
+  let rd := mkDict [("Font", fv.1)]
+  let rroot := sel 3 rd rd
+  let font0 := mkDict [("Type", nm "Font"), ("Subtype", nm "Type1"), ("BaseFont", nm "Helvetica")]
+  let pres := sel 10 (mkDict [("Font", mkDict [("F2", font0)])]) .null
+  let ce := sel 2 st (.ref 9 0)
+  let cont : Obj × List (Nat × Obj) :=
+    if pos == 1 then shapeObjs 50 st sh
+    else if pos == 2 then (.arr [.ref 9 0, ce.1, .ref 9 0], ce.2)
+    else if pos == 11 then shapeObjs 50 (.arr [.ref 9 0, .ref 9 0]) sh
+    else (.ref 9 0, [])
+  let kroot := sel 0 (.arr [.ref 3 0, .ref 4 0]) (.arr [.ref 3 0, .ref 4 0])
+  let knode := sel 9 (.arr [.ref 5 0]) (.arr [.ref 5 0])
+  let page3 := [("Type", nm "Page"), ("Parent", .ref 2 0), ("Contents", cont.1),
+                ("MediaBox", .arr [.int 0, .int 0, .int 612, .int 792])] ++
+               (if pos == 10 then [("Resources", pres.1)] else [])
+  [(1, mkDict [("Type", nm "Catalog"), ("Pages", .ref 2 0)]),
+   (2, mkDict [("Type", nm "Pages"), ("Count", .int 2), ("Kids", kroot.1), ("Resources", rroot.1)]),
+   (3, mkDict page3),
+   (4, mkDict [("Type", nm "Pages"), ("Parent", .ref 2 0), ("Count", .int 1), ("Kids", knode.1)]),
+   (5, mkDict [("Type", nm "Page"), ("Parent", .ref 4 0), ("Contents", .ref 9 0),
+               ("MediaBox", .arr [.int 0, .int 0, .int 612, .int 792])]),
+   (8, descr), (9, st)] ++
+  ff.2 ++ fdv.2 ++ enc.2 ++ fe.2 ++ fv.2 ++ rroot.2 ++ pres.2 ++ cont.2 ++ kroot.2 ++ knode.2
+
+/-- does the REAL type checker accept the document with this shape at this position?  Observed with
+    the harness: it rejects a chain that loops or dangles under /Kids, /Contents (value, array,
+    element) and a page's /Resources, and constrains nothing under the root's /Resources, the /Font
+    value, font entries, /Encoding, /FontDescriptor, /FontFile2.  A wrong entry shows up as
+    `bad tcreject`. -/
+def shapeTC (pos : Nat) (sh : Shape) : Bool :=
+  let ends := match sh with | .direct | .chain _ => true | _ => false
+  ends || !([0, 1, 2, 9, 10, 11].contains pos)
+
+def shapeCases : List (String × String) :=
+  (List.range posNames.length).flatMap fun pos =>
+    -- a stream cannot be a direct value: no `direct` shape where the target is a stream
+    (allShapes.filter fun sh => !([1, 2, 8].contains pos && (match sh with | .direct => true | _ => false))).flatMap fun sh =>
+      let doc := shapeDoc pos sh
+      let nmv := s!"{posNames[pos]?.getD "?"}-{sh.name}"
+      [(nmv, encCase "any" 1 doc)] ++ (if shapeTC pos sh then [(nmv ++ "-tc", encCase "tc" 1 doc)] else [])
+
+
+/-- a random chain shape at a random chain position of a random (type-correct) tree; returns the tag -/
+def shapeMutG (s : GS) : G (String × List (Nat × Obj)) := do
+  let nodes := typedIds s.objs "Pages"
+  let pages := typedIds s.objs "Page"
+  let node ← pickL nodes
+  let page ← pickL (if pages.isEmpty then nodes else pages)
+  let anyn ← pickL (nodes ++ pages)
+  let sh ← pickL allShapes
+  let r ← rnd 8
+  let coin ← rnd 2
+  -- the real type checker constrains a page's /Resources but not the root's (observed)
+  let rtgt := if coin == 0 then 2 else anyn
+  let rfree := rtgt == 2
+  let base := s.next + 10
+  let st : Obj := .stream [] ⟨0, 2, [113, 32]⟩
+  let font0 := mkDict [("Type", nm "Font"), ("Subtype", nm "Type1"), ("BaseFont", nm "Helvetica")]
+  let descr := mkDict [("Type", nm "FontDescriptor"), ("FontName", nm "ABCDEF+Foo"), ("Flags", .int 4)]
+  let ends := match sh with | .direct | .chain _ => true | _ => false
+  let resWith (f : Obj) : Obj := mkDict [("Font", mkDict [("F1", f)])]
+  let (objs, free) : List (Nat × Obj) × Bool :=
+    match r with
+    | 0 => let (v, x) := shapeObjs base (.arr [.ref page 0]) sh; (setKey s.objs node "Kids" (some v) ++ x, false)
+    | 1 => let (v, x) := shapeObjs base st (noInline sh); (setKey s.objs page "Contents" (some v) ++ x, false)
+    | 2 => let (v, x) := shapeObjs base st (noInline sh); (setKey s.objs page "Contents" (some (.arr [v])) ++ x, false)
+    | 3 => let (v, x) := shapeObjs base (resWith font0) sh; (setKey s.objs anyn "Resources" (some v) ++ x, false)
+    | 4 => let (v, x) := shapeObjs base (mkDict [("F1", font0)]) sh
+           (setKey s.objs rtgt "Resources" (some (mkDict [("Font", v)])) ++ x, rfree)
+    | 5 => let (v, x) := shapeObjs base font0 sh; (setKey s.objs rtgt "Resources" (some (resWith v)) ++ x, rfree)
+    | 6 => let (v, x) := shapeObjs base (nm "MacRomanEncoding") sh
+           (setKey s.objs rtgt "Resources" (some (resWith (mkDict [("Type", nm "Font"), ("Subtype", nm "Type1"),
+              ("BaseFont", nm "Helvetica"), ("Encoding", v)]))) ++ x, rfree)
+    | _ => let (v, x) := shapeObjs base descr sh
+           (setKey s.objs rtgt "Resources" (some (resWith (mkDict [("Type", nm "Font"), ("Subtype", nm "TrueType"),
+              ("BaseFont", nm "ABCDEF+Foo"), ("FontDescriptor", v)]))) ++ x, rfree)
+  return (if (ends || free) && !(pages.isEmpty && r < 3) then "tc" else "any", objs)
+
 def genOne (seed : Nat) (kind : Nat) : String :=
   let wild := kind == 2
   let go : G (String × List (Nat × Obj)) := do
@@ -401,6 +529,7 @@ def genOne (seed : Nat) (kind : Nat) : String :=
     match kind with
     | 0 => return ("tc", s.objs)
     | 1 => do let o ← shareMut s; return ("any", o)
+    | 3 => shapeMutG s
     | _ => do
       let o ← wildMut s
       let again ← rnd 3
@@ -450,91 +579,11 @@ def smallCases (stride : Nat) : List String := Id.run do
   return out.reverse
 
 
-/-! ### reference-chain shapes at every position where to_page_dom follows (or could follow) references -/
-
-inductive Shape where
-  | direct | chain (n : Nat) | selfLoop | cycle (c : Nat) | lasso (t c : Nat) | dangling (d : Nat)
-
-def Shape.name : Shape → String
-  | .direct => "direct" | .chain n => s!"chain{n}" | .selfLoop => "self" | .cycle c => s!"cycle{c}"
-  | .lasso t c => s!"lasso{t}+{c}" | .dangling d => s!"dangling{d}"
-
-def allShapes : List Shape :=
-  [.direct] ++ [1, 2, 3, 4].map .chain ++ [.selfLoop] ++ [2, 3].map .cycle ++
-  ([1, 2, 3].flatMap fun t => [1, 2, 3].map fun c => .lasso t c) ++ [0, 1, 2].map .dangling
-
-/-- the value to put at the position and the link objects (identifiers from `base`):
-    chain n: n links then the target; cycle c: c links back to the start; lasso t c: t links into a
-    cycle of c links that does not contain the start; dangling d: d links then an undefined object -/
-def shapeObjs (base : Nat) (target : Obj) : Shape → Obj × List (Nat × Obj)
-  | .direct => (target, [])
-  | .chain n => (.ref base 0, (List.range n).map fun i => (base + i, if i + 1 == n then target else .ref (base + i + 1) 0))
-  | .selfLoop => (.ref base 0, [(base, .ref base 0)])
-  | .cycle c => (.ref base 0, (List.range c).map fun i => (base + i, .ref (base + (i + 1) % c) 0))
-  | .lasso t c =>
-    (.ref base 0, ((List.range t).map fun i => (base + i, Obj.ref (base + i + 1) 0)) ++
-      (List.range c).map fun i => (base + t + i, .ref (base + t + (i + 1) % c) 0))
-  | .dangling d => (.ref base 0, (List.range d).map fun i => (base + i, .ref (base + i + 1) 0))
-
-def posNames : List String :=
-  ["root-kids", "contents", "contents-elem", "root-resources", "font-value", "font-entry", "encoding",
-   "fontdescriptor", "fontfile2", "node-kids", "page-resources", "contents-array"]
-
-/-- a two-level tree (root 2, page 3, inner node 4, page 5) with the shape at position `pos` -/
-def shapeDoc (pos : Nat) (sh : Shape) : List (Nat × Obj) :=
-  let st : Obj := .stream [] ⟨0, 2, [113, 32]⟩
-  let sel (p : Nat) (target dflt : Obj) : Obj × List (Nat × Obj) :=
-    if p == pos then shapeObjs 50 target sh else (dflt, [])
-  let ff := sel 8 st (.ref 9 0)
-  let descr := mkDict [("Type", nm "FontDescriptor"), ("FontName", nm "ABCDEF+Foo"), ("Flags", .int 32), ("FontFile2", ff.1)]
-  let fdv := sel 7 descr (.ref 8 0)
-  let enc := sel 6 (nm "WinAnsiEncoding") (nm "WinAnsiEncoding")
-  let font := mkDict [("Type", nm "Font"), ("Subtype", nm "TrueType"), ("BaseFont", nm "ABCDEF+Foo"),
-                      ("Encoding", enc.1), ("FontDescriptor", fdv.1)]
-  let fe := sel 5 font font
-  let fonts := mkDict [("F1", fe.1)]
-  let fv := sel 4 fonts fonts
-  let rd := mkDict [("Font", fv.1)]
-  let rroot := sel 3 rd rd
-  let font0 := mkDict [("Type", nm "Font"), ("Subtype", nm "Type1"), ("BaseFont", nm "Helvetica")]
-  let pres := sel 10 (mkDict [("Font", mkDict [("F2", font0)])]) .null
-  let ce := sel 2 st (.ref 9 0)
-  let cont : Obj × List (Nat × Obj) :=
-    if pos == 1 then shapeObjs 50 st sh
-    else if pos == 2 then (.arr [.ref 9 0, ce.1, .ref 9 0], ce.2)
-    else if pos == 11 then shapeObjs 50 (.arr [.ref 9 0, .ref 9 0]) sh
-    else (.ref 9 0, [])
-  let kroot := sel 0 (.arr [.ref 3 0, .ref 4 0]) (.arr [.ref 3 0, .ref 4 0])
-  let knode := sel 9 (.arr [.ref 5 0]) (.arr [.ref 5 0])
-  let page3 := [("Type", nm "Page"), ("Parent", .ref 2 0), ("Contents", cont.1),
-                ("MediaBox", .arr [.int 0, .int 0, .int 612, .int 792])] ++
-               (if pos == 10 then [("Resources", pres.1)] else [])
-  [(1, mkDict [("Type", nm "Catalog"), ("Pages", .ref 2 0)]),
-   (2, mkDict [("Type", nm "Pages"), ("Count", .int 2), ("Kids", kroot.1), ("Resources", rroot.1)]),
-   (3, mkDict page3),
-   (4, mkDict [("Type", nm "Pages"), ("Parent", .ref 2 0), ("Count", .int 1), ("Kids", knode.1)]),
-   (5, mkDict [("Type", nm "Page"), ("Parent", .ref 4 0), ("Contents", .ref 9 0),
-               ("MediaBox", .arr [.int 0, .int 0, .int 612, .int 792])]),
-   (8, descr), (9, st)] ++
-  ff.2 ++ fdv.2 ++ enc.2 ++ fe.2 ++ fv.2 ++ rroot.2 ++ pres.2 ++ cont.2 ++ kroot.2 ++ knode.2
-
-/-- does the REAL type checker accept the document with this shape at this position?  (Observed:
-    it follows /Kids, /Contents, /Resources, /Font and descriptor references and rejects loops and
-    dangling targets there.)  A wrong entry shows up as `bad tcreject`. -/
-def shapeTC (pos : Nat) (sh : Shape) : Bool := true
-
-def shapeCases : List (String × String) :=
-  (List.range posNames.length).flatMap fun pos =>
-    allShapes.flatMap fun sh =>
-      let doc := shapeDoc pos sh
-      let nmv := s!"{posNames[pos]?.getD "?"}-{sh.name}"
-      [(nmv, encCase "any" 1 doc)] ++ (if shapeTC pos sh then [(nmv ++ "-tc", encCase "tc" 1 doc)] else [])
-
 def gen (seed n : Nat) (tier : String) (emit : String → IO Unit) : IO Unit := do
   for c in smallCases (if tier == "thorough" then 1 else 7) do emit c
   for (_, c) in shapeCases do emit c
   for i in List.range n do
-    emit (genOne (seed * 1000003 + i) (if i % 5 < 2 then 0 else if i % 5 < 3 then 1 else 2))
+    emit (genOne (seed * 1000003 + i) (if i % 6 < 2 then 0 else if i % 6 < 3 then 1 else if i % 6 < 5 then 2 else 3))
 
 /-- non-trivial: the expected DOM has >= 3 records including an inner node, or the graph contains
     a top-level reference object (a link of a reference chain or a loop) -/
